@@ -79,8 +79,11 @@ class Emitter:
         else:
             fn = where
             f, line, col = fn.file, fn.line, 0
+        rel = u.rel(f)
+        if rel.startswith(('unit_tests/', 'tests/', 'examples/')):
+            return  # test code is parsed only for the template instantiations it provides; sites in it are not libvata
         self.records.append({
-            'rule': self.rule, 'kind': kind, 'file': u.rel(f), 'line': line, 'col': col,
+            'rule': self.rule, 'kind': kind, 'file': rel, 'line': line, 'col': col,
             'func': fn.q, 'sig': fn.sig, 'construct': construct, 'detail': detail,
             'obligation': obligation,
         })
